@@ -35,6 +35,16 @@ func init() {
 			What:   "single chunk, EVERY half mask of the mode's weight, real PDEP/PEXT loops: encoded chunk = documented bit-by-bit encoding; decode(encode(src)) == src; lengths 1..C",
 			Bounds: "one chunk (N <= C), all 2^32 half masks of the required weight, both padding bits, every valid rotation value", Outside: "chunk index > 0 is covered through H17.4 (every later mask is again a repeated half mask of the same weight)"}
 	}
+	canN := func(name, id, tier string) HarnessDef {
+		return HarnessDef{ID: id, Tier: tier, Spec: HarnessSpec{Name: name, Pkg: "pkg/protocol", LoopBound: 40, LoopBounds: lb17, TimeoutS: 120, Par: 6, Redirects: rot},
+			What:   "canonicity, several chunks: for every body length 1..2C+1 and EVERY byte string of the matching encoded length, if the real decoder accepts it then it equals the real encoder's output for the decoded body with padding bit 0 or 1 (incl. unused mask-selected positions of a partial last chunk); inconsistent encoded/extracted lengths are rejected",
+			Bounds: "N <= 2C+1 (3 chunks), concrete per-chunk mask table (stub of rotateLowEntropyMask), every rotation value, all byte strings", Outside: "longer bodies; other masks (H17.6c covers every mask for one chunk)"}
+	}
+	can1 := func(name, id, tier string) HarnessDef {
+		return HarnessDef{ID: id, Tier: tier, Spec: HarnessSpec{Name: name, Pkg: "pkg/protocol", LoopBound: 16, LoopBounds: lb17, TimeoutS: 900, Par: 4},
+			What:   "canonicity, one chunk, EVERY mask and rotation value: accepted => mask weight is the mode's, rotation valid, input = canonical encoding with padding bit 0 or 1",
+			Bounds: "one chunk (N <= C), all 2^32 masks, all 2^64 chunk values", Outside: "-"}
+	}
 	reg("C17",
 		mx("vH_C17_pdepGeneric_rec", "H17.1a", "pdepGeneric satisfies the PDEP recursion on the lowest mask bit (this defines PDEP)", 240),
 		mx("vH_C17_pextGeneric_p1", "H17.2a", "pextGeneric: PDEP(PEXT(x,m),m) == x&m", 400),
@@ -56,6 +66,11 @@ func init() {
 		rtN("vH_C17_roundtripN_m32", "H17.3b-32", ""), rtN("vH_C17_roundtripN_m56", "H17.3b-56", ""),
 		rtN("vH_C17_roundtripN_m40", "H17.3b-40", "thorough"), rtN("vH_C17_roundtripN_m48", "H17.3b-48", "thorough"),
 		rt1("vH_C17_roundtrip1_m56", "H17.3a-56", "", 300),
+		HarnessDef{ID: "H17.6a", Spec: HarnessSpec{Name: "vH_C17_validate_metadata", Pkg: "pkg/protocol", LoopBound: 8, TimeoutS: 120},
+			What: "validateLowEntropyDataAckMetadata accepts exactly the mutually consistent (type, mode, mask weight, rotation, payloadLen, extractedPayloadLen) tuples", Bounds: "all field values", Outside: "-"},
+		canN("vH_C17_canonN_m32", "H17.6b-32", ""), canN("vH_C17_canonN_m56", "H17.6b-56", ""),
+		canN("vH_C17_canonN_m40", "H17.6b-40", "thorough"), canN("vH_C17_canonN_m48", "H17.6b-48", "thorough"),
+		can1("vH_C17_canon1_m56", "H17.6c-56", "thorough"), can1("vH_C17_canon1_m32", "H17.6c-32", "thorough"),
 		rt1("vH_C17_roundtrip1_m32", "H17.3a-32", "thorough", 900), rt1("vH_C17_roundtrip1_m40", "H17.3a-40", "thorough", 900), rt1("vH_C17_roundtrip1_m48", "H17.3a-48", "thorough", 900),
 	)
 	reg("C14",
@@ -73,13 +88,19 @@ func init() {
 			What: "dataAckStruct.Marshal emits the documented layout incl. the low entropy extension; Unmarshal round trip", Bounds: "all field values; clock 2020..2100", Outside: "-"},
 	)
 	reg("C11",
-		HarnessDef{ID: "H11.1-0", Spec: HarnessSpec{Name: "vH_C11_auth_nocred", Pkg: "pkg/socks5", LoopBound: 12, LoopBounds: map[string]int{"ReadAtLeast": 2}, TimeoutS: 120, Par: 4},
+		HarnessDef{ID: "H11.1s-0", Spec: HarnessSpec{Name: "vH_C11_shaped_nocred", Pkg: "pkg/socks5", LoopBound: 12, LoopBounds: map[string]int{"ReadAtLeast": 2}, TimeoutS: 120, Par: 4},
+			What: "complete RFC 1928/1929 negotiations with case-split field lengths (1..2 methods, user/password 1..2 bytes) and symbolic bytes, no credentials configured: success only with reply 05 00", Bounds: "8 shapes, all byte values", Outside: "longer fields (H11.1 covers symbolic lengths)"},
+		HarnessDef{ID: "H11.1s-1", Spec: HarnessSpec{Name: "vH_C11_shaped_1cred", Pkg: "pkg/socks5", LoopBound: 12, LoopBounds: map[string]int{"ReadAtLeast": 2}, TimeoutS: 120, Par: 6},
+			What: "same shapes, one configured credential: success => reply 05 02 / 01 00 and the presented pair equals it", Bounds: "8 shapes, credentials <= 3 bytes", Outside: "as above"},
+		HarnessDef{ID: "H11.1s-2", Spec: HarnessSpec{Name: "vH_C11_shaped_2cred", Pkg: "pkg/socks5", LoopBound: 12, LoopBounds: map[string]int{"ReadAtLeast": 2}, TimeoutS: 120, Par: 6},
+			What: "same shapes, two configured credentials: success => the presented user AND password equal ONE configured pair", Bounds: "8 shapes, credentials <= 3 bytes", Outside: "as above"},
+		HarnessDef{ID: "H11.1-0", Tier: "thorough", Spec: HarnessSpec{Name: "vH_C11_auth_nocred", Pkg: "pkg/socks5", LoopBound: 12, LoopBounds: map[string]int{"ReadAtLeast": 2}, TimeoutS: 120, Par: 4},
 			What:   "handleAuthentication on an arbitrary byte stream, no credentials configured: success only via method 0x00 with reply 05 00",
 			Bounds: "<= 6 offered methods, stream <= 19 bytes, full-size reads (chunking invariance of io.ReadFull is the standard library's)", Outside: "method lists longer than 6"},
-		HarnessDef{ID: "H11.1-1", Spec: HarnessSpec{Name: "vH_C11_auth_1cred", Pkg: "pkg/socks5", LoopBound: 12, LoopBounds: map[string]int{"ReadAtLeast": 2}, TimeoutS: 120, Par: 4},
+		HarnessDef{ID: "H11.1-1", Tier: "thorough", Spec: HarnessSpec{Name: "vH_C11_auth_1cred", Pkg: "pkg/socks5", LoopBound: 12, LoopBounds: map[string]int{"ReadAtLeast": 2}, TimeoutS: 120, Par: 4},
 			What:   "handleAuthentication, one configured credential: success only after reply 05 02 and a presented user/password equal to it",
 			Bounds: "<= 6 methods, user/password <= 3 bytes, stream <= 19 bytes", Outside: "longer credentials (length bytes are symbolic, contents compared bytewise up to 3)"},
-		HarnessDef{ID: "H11.1-2", Spec: HarnessSpec{Name: "vH_C11_auth_2cred", Pkg: "pkg/socks5", LoopBound: 12, LoopBounds: map[string]int{"ReadAtLeast": 2}, TimeoutS: 120, Par: 4},
+		HarnessDef{ID: "H11.1-2", Tier: "thorough", Spec: HarnessSpec{Name: "vH_C11_auth_2cred", Pkg: "pkg/socks5", LoopBound: 12, LoopBounds: map[string]int{"ReadAtLeast": 2}, TimeoutS: 120, Par: 4},
 			What: "same with two configured credentials", Bounds: "as H11.1-1", Outside: "as H11.1-1"},
 	)
 	ral := map[string]int{"ReadAtLeast": 2}
@@ -179,5 +200,21 @@ func init() {
 			ReplayPatches: []SrcPatch{{File: "pkg/protocol/session.go", Old: "\t\tif s.recvQueue.Len() > 0 {\n\t\t\t// Read segments from recv queue.", New: "\t\tif vReplayLenHook(s) > 0 {\n\t\t\t// Read segments from recv queue."}},
 			What:   "real Session.Read with an environment step (another goroutine may queue the next data segment and/or complete the close right after Read looked at the queue; the select choice among ready cases is symbolic): io.EOF is returned only when the receive queue and unread buffer are empty",
 			Bounds: "one environment step at the queue-length check, segment payload 1..2 bytes, both transports, client and server", Outside: sessNote + "; the sender side and the UDP close ordering (see DESIGN.md, known findings)"},
+	)
+	outR := map[string]string{}
+	for k, v := range sess {
+		outR[k] = v
+	}
+	outR["(*github.com/enfein/mieru/v3/pkg/congestion.RTTStats).RTO"] = "vStubRTO"
+	outR["(*github.com/enfein/mieru/v3/pkg/congestion.CubicSendAlgorithm).CongestionWindowSize"] = "vStubCwnd"
+	outR["(*github.com/enfein/mieru/v3/pkg/congestion.CubicSendAlgorithm).OnTimeout"] = "vStubCubicEvent"
+	outR["(*github.com/enfein/mieru/v3/pkg/congestion.CubicSendAlgorithm).OnLoss"] = "vStubCubicEvent"
+	outR["(*github.com/enfein/mieru/v3/pkg/congestion.CubicSendAlgorithm).OnAck"] = "vStubCubicEvent"
+	outputPatch := SrcPatch{File: "pkg/protocol/session.go", Old: "func (s *Session) output(seg *segment, remoteAddr net.Addr) error {\n", New: "func (s *Session) output(seg *segment, remoteAddr net.Addr) error {\n\tif vReplayRedirect {\n\t\treturn vStubOutput(s, seg, remoteAddr)\n\t}\n"}
+	reg("C13",
+		HarnessDef{ID: "H13.2", Spec: HarnessSpec{Name: "vH_C13_output_packet", Pkg: "pkg/protocol", LoopBound: 8, LoopBounds: sessLB, TimeoutS: 240, Par: 6, Redirects: outR},
+			ReplayPatches: []SrcPatch{outputPatch},
+			What:   "one pass of the real UDP output loop (runOutputOncePacket) from an arbitrary state - a segment in the send buffer with arbitrary timers/counters, a new segment in the send queue, possibly a segment buffered ahead of a receive gap, arbitrary windows and clock: every emitted data/ack datagram carries unAckSeq == nextRecv; a (re)transmitted segment keeps type, seq, fragment, length and payload; queued data of a still-opening client session is deferred (C02 H2.1)",
+			Bounds: "<= 1 segment per queue, payload <= 1 byte, RTO/cwnd arbitrary in range (congestion control stubbed by range contract)", Outside: sessNote},
 	)
 }
